@@ -67,6 +67,26 @@ fn edit(req: &Value) -> Value {
     }
 }
 
+fn edits(req: &Value) -> Value {
+    // didOpen(doc) then a CHAIN of incremental changes on the same Vfs (the line map of every change is the one the previous change left)
+    let mut vfs = Vfs::new();
+    let file = vfs.set_path_content(VfsPath::new("/verif/doc.gleam"), text_of(&req["doc"]));
+    for (i, e) in req["edits"].as_array().unwrap().iter().enumerate() {
+        let before = vfs.content_for_file(file);
+        let ins = text_of(&e["ins"]);
+        let res = (|| -> anyhow::Result<()> {
+            let (_, range) = convert::from_range(&vfs, file, p4(e))?;
+            vfs.change_file_content(file, Some(range), &ins)?;
+            Ok(())
+        })();
+        if let Err(err) = res {
+            let after = vfs.content_for_file(file);
+            return json!({"ok": false, "edit": i, "err": format!("{err:#}"), "unchanged": *before == *after, "text": hex(after.as_bytes())});
+        }
+    }
+    json!({"ok": true, "text": hex(vfs.content_for_file(file).as_bytes())})
+}
+
 fn from_pos(req: &Value) -> Value {
     let (_, map) = vfs::verif_api::normalize(text_of(&req["doc"]));
     let g = |k: &str| req[k].as_u64().unwrap() as u32;
@@ -123,6 +143,7 @@ fn main() {
         let res = panic::catch_unwind(|| match cmd.as_str() {
             "linemap" => linemap(&req),
             "edit" => edit(&req),
+            "edits" => edits(&req),
             "from_pos" => from_pos(&req),
             "to_range" => to_range(&req),
             "semtok" => semtok(&req),
